@@ -132,12 +132,29 @@ def window_sum_mod(toy, wins, width):
     return acc
 
 
+def install_endomorphism(m, toy):
+    """toy image of the GLV endomorphism: feBeta is mapped by role to a primitive cube root of unity beta' mod q, and
+    (x, y) -> (beta' x, y) is multiplication by lambda' on the toy group.  Returns lambda'."""
+    q, n = toy.p, toy.n
+    beta = next(b for b in range(2, q) if pow(b, 3, q) == 1)
+    gx, gy = toy.G
+    lam = toy.index[((beta * gx) % q, gy)]
+    assert (lam * lam + lam + 1) % n == 0
+    for k in range(1, n):       # the map is the endomorphism lambda' on every group element
+        x, y = toy.mult[k]
+        assert toy.index[((beta * x) % q, y)] == (lam * k) % n
+    m.global_init[ROOT + 'feBeta'] = lambda mm: X.Ptr(mm.new_obj(None, tree=X.Abs('fe', beta), label='const:feBeta(toy)'), ())
+    return lam
+
+
 def new_scalar(m, limbs):
     return X.Ptr(m.new_obj(None, tree=[[], list(limbs)], label='Scalar'), ())
 
 
 SUMMARY = {
     'field.Element methods (toy field F_q)': 'arithmetic mod q on 16-bit values, table inverse / square root; full-width counterparts discharged by C01',
+    'GLV endomorphism (toy image)': "feBeta -> a primitive cube root of unity beta' mod q; (x,y) -> (beta' x, y) is multiplication by lambda' on the toy group (checked for "
+                                    "every group element when the machine is built); the real beta / lambda pair is pinned by C04 const/*",
     'generator tables (toy image)': 'huge[i][j] = (j+1)*256^i*G\', odd[i][j] = 16*(j+1)*256^i*G\' on the toy curve: the statement the ground check '
                                     'table/contents decides for the embedded tables of the current tree',
 }
